@@ -26,7 +26,7 @@ def c17(run):
         "coap_subscribe.c): decides the structural clauses 'a stream is only read/written if its open mode allows it' and, per "
         "updater, 'only the .tmp copy is written, the real file is never opened truncating, rename() is reached only after a "
         "flush/close of the .tmp stream whose tested result is success'. These are necessary for 'old or new complete state "
-        "after a crash'; restart behaviour and Observe counter values are NOT decided.")
+        "after a crash'; restart behaviour and Observe counter values are NOT decided. A record that is only copied into the new file is written back with exactly the variables the read call of that loop filled (R-PERSIST copy-through).")
 
 
 def c13(run):
@@ -74,7 +74,7 @@ def c18(run):
         "given its own buffer (R-SHALLOW-ALIAS); a record allocated in a function is not released with the raw allocator call while fields of it still "
         "hold objects created on that path (R-HOLDER-LEAK); strings, binaries, option lists and cache keys created in a function are released, stored, returned or handed "
         "on on every path, error paths included (R-OWN-LOCAL); a local pointer handed to a (computed, must-free) destructor is not used again before it is "
-        "re-assigned (R-USE-AFTER-DESTROY). Necessary for 'allocation failure is survived without crash or leak'.")
+        "re-assigned (R-USE-AFTER-DESTROY). Necessary for 'allocation failure is survived without crash or leak'. The result of a reallocating call is never stored into the pointer that was passed as the old block, and no field of the owning parameter object is changed ahead of a reallocation that fails (R-REALLOC-COMMIT); GnuTLS's allocators (function-pointer variables) are may-fail constructors too.")
 
 
 def c12(run):
@@ -97,7 +97,7 @@ def c12(run):
         "Reference discipline of sessions decided on every path: temporary references are released in the same function (R-REF-TMP); objects "
         "holding a session reference (computed: queue nodes, subscriptions, async entries) release it before they are freed or cleared "
         "(R-REF-HOLD); a server session is never freed without SERVER_SESSION_DEL and NEW is raised once (R-SESS-EVT); function-local owners "
-        "of strings/binaries/optlists/cache keys are disposed of on every path (R-OWN-LOCAL). Necessary for 'live while referenced, everything released'.")
+        "of strings/binaries/optlists/cache keys are disposed of on every path (R-OWN-LOCAL). Necessary for 'live while referenced, everything released'. After a holder's session reference was released the field is overwritten or the holder freed raw on every path (R-REF-HOLD stale); a session made in a function is freed there only after it was added to a session table (R-SESS-HASHED).")
 
 
 CODEC_UNITS = ('coap_pdu.c', 'coap_option.c')
@@ -126,7 +126,7 @@ def c01(run):
         "Writer/reader table agreement decided statically: the thresholds, arm offsets and nibble splits of every option/TCP-length/token-length "
         "encoder and decoder equal the RFC 7252/8323/8974 tables and each other, the decoder's option-number bound as folded by the compiler equals the "
         "builder's (R-CODEC-TAB); no store passes through a narrowing explicit cast that can lose bits (R-WIDTH); the builder never uses a buffer "
-        "pointer across a reallocation and moves payload pointer and size together (R-FIXUP). Necessary conditions of the round trip.")
+        "pointer across a reallocation and moves payload pointer and size together (R-FIXUP). Necessary conditions of the round trip. Every ordering comparison against the extended-token bias macros cuts the application token lengths exactly at 13 / 269 (R-CODEC-TAB 7, by enumeration over all token lengths).")
 
 
 def c03(run):
@@ -148,7 +148,7 @@ def c03(run):
         "16-bit delta / running number with wrap-guard or range-guard discharge, R-WIDTH); decoder tables agree with the encoder's and the RFCs "
         "(R-CODEC-TAB); every reject condition of the frozen table (nibble 15, TKL 15, token longer than message, marker without payload, "
         "non-empty Empty, option-number overflow, runt) exists and every path through its rejecting arm returns 0, and coap_dispatch is reached only "
-        "after successful parser calls (R-PARSE-GATE).")
+        "after successful parser calls (R-PARSE-GATE). The accept flag a decoding function collects over several checks is never raised again once it is 0 (R-PARSE-GATE verdict); token-length thresholds cut at 13 / 269 (R-CODEC-TAB 7).")
 
 
 def c04(run):
@@ -169,7 +169,7 @@ def c04(run):
     return run.finish(
         "In-place editors (coap_update_token, coap_remove_option, coap_insert_option, coap_update_option and the codec units): every adjustment of "
         "used_size is matched by the same adjustment of a non-NULL payload pointer and equals the memmove distance, no pointer into the buffer is used "
-        "after a call that may reallocate it (R-FIXUP), and no length is stored through a narrowing explicit cast that can truncate it (R-WIDTH).")
+        "after a call that may reallocate it (R-FIXUP), and no length is stored through a narrowing explicit cast that can truncate it (R-WIDTH). Token-length thresholds are applied so that they cut the application token lengths at 13 / 269 (R-CODEC-TAB 7).")
 
 
 def c05(run):
@@ -188,7 +188,7 @@ def c05(run):
         "Stream readers (TCP three-state reader, WebSocket frame and handshake readers): every transfer of n bytes to buffer+counter is followed by "
         "an advance of that counter by the same n or a reset, on every path (R-STREAM-ADV); a length declared by the peer reaches an allocation/copy/"
         "read size only after the non-exceeding arm of a comparison with a maximum, the exceeding arm reaches a closing call, and a full handshake "
-        "line buffer is rejected (R-STREAM-CAP). Necessary for 'same messages however the stream is cut' and 'over-long closes the session'.")
+        "line buffer is rejected (R-STREAM-CAP). Necessary for 'same messages however the stream is cut' and 'over-long closes the session'. The receive limit, once our own maximum is set, is computed without any session field the peer can set (R-STREAM-CAP own limit; peer-settable fields computed from the assignments of decoded option values).")
 
 
 def c16(run):
@@ -211,7 +211,7 @@ def c16(run):
         "coap_host_is_unix_domain) is proven inside the delimited bytes by a cursor/remaining-length analysis, and decode_segment is only called "
         "after a tested check_segment on the same arguments (R-LEN-READ); the unescaped character classes, evaluated for all 256 byte values on "
         "the extracted expression, exclude the separators the reconstruction writes and '%' (R-URI-CLASS, necessary for injectivity); optlist "
-        "constructors are NULL-checked (R-ALLOC-NULL).")
+        "constructors are NULL-checked (R-ALLOC-NULL). The measuring and the filling loop of the reconstruction agree for all 256 byte values (R-SIZE-FILL); a port number cannot leave its digit loop through the value guard without being rejected by the range check (R-LEN-READ accumulator guard).")
 
 
 def c15(run):
@@ -235,7 +235,7 @@ def c15(run):
         "(R-REPLAY-RB); every accepted request passed a successful validation (R-REPLAY-MUST); the sender sequence number is only stepped by +1, "
         "advanced exactly once between its use as partial IV and the successful return, and compared with the persisted watermark such that the "
         "skipping arm implies used+1 <= next_seq while the other arm advances next_seq and hands it to the save callback (R-SSN-ORDER). Seven genuine defects of the current tree are "
-        "listed in known_findings.txt and re-observed on every run.")
+        "listed in known_findings.txt and re-observed on every run. A freshly built Echo challenge is protected with its own Partial IV on every path (R-SSN-ORDER Echo).")
 
 
 def c08(run):
@@ -255,7 +255,7 @@ def c08(run):
         "hand (reached through a coap_queue_t* or with one known non-NULL); every increment is reached only on the below-the-limit arm of a "
         "comparison with NSTART, and the two functions that first transmit an unreliable Confirmable count it; conversely a node that "
         "coap_remove_from_queue() hands out and that is then deleted has been un-counted on that path (or was no Confirmable / the count is 0). "
-        "Necessary for the NSTART bound and for held messages going out when earlier exchanges finish.")
+        "Necessary for the NSTART bound and for held messages going out when earlier exchanges finish. A flush of the delay queue that is controlled by a test of con_active is dominated by the decrement under the same test (h).")
 
 
 def c06(run):
@@ -277,7 +277,7 @@ def c06(run):
         "Send-queue node typestate on every path of every function handling coap_queue_t*: a node has exactly one owner (held / in the send "
         "queue / in a delay queue / deleted), is never deleted while linked in a delay queue, never used after deletion and never lost "
         "(R-OWN-NODE) - so after its single outcome a message cannot be sent again; in coap_retransmit the retransmission is gated by "
-        "retransmit_cnt < max_retransmit with exactly one increment, and a given-up Confirmable is NACKed exactly once before deletion (R-RETRANS).")
+        "retransmit_cnt < max_retransmit with exactly one increment, and a given-up Confirmable is NACKed exactly once before deletion (R-RETRANS). Whoever arms the context's timerfd has recorded the deadline it arms it for (R-TIMER-REC).")
 
 
 REPLY_FUNCS = ('handle_request', 'coap_dispatch', 'check_token_size', 'hnd_get_wellknown_lkd', 'coap_new_error_response', 'coap_send_ack_lkd',
@@ -309,7 +309,7 @@ def c10(run):
         "coap_send_internal; R-OWN-PDU), and no path of coap_dispatch / handle_request passes two emission points other than the Empty-ACK-then-"
         "response pattern (R-REPLY-ONCE). Suppression table: every per-resource multicast suppression flag is paired with the response class its public "
         "name states, on the arm its polarity (ENA/DIS) demands, and leads to a drop; the flags are distinct bits; the No-Response bitmap is indexed "
-        "with class-1 (R-SUPPRESS-TAB).")
+        "with class-1 (R-SUPPRESS-TAB). A token is copied into a reply with the length of the bytes it is copied from (R-PAIR-ARGS, library-wide).")
 
 
 def c09(run):
@@ -363,7 +363,7 @@ def c19(run):
         "gnutls_handshake's result and do_gnutls_handshake returns 1 only there; coap_session_connected and record I/O in the back end happen only "
         "after that; coap_send_pdu transmits only with session->state == ESTABLISHED (R-ROUTE). Credential verdict: in the PSK callbacks the result of "
         "the application's identity / hint validation callback is never replaced before it is acted on, and a success return is only reached with it "
-        "known non-NULL (R-PSK-VERDICT).")
+        "known non-NULL (R-PSK-VERDICT). Where the identity / hint callback is known installed a success return is reached only after it was called; a node taken off a delay queue is deleted only after its PDU went to the transport or, being Confirmable, to coap_handle_nack (R-DELAYQ-NACK).")
 
 
 def c14(run):
@@ -385,7 +385,7 @@ def c14(run):
         "reached only with the result of cose_encrypt0_decrypt known > 0 (R-OSC-SPLIT); (3) the association that carries the request's AAD, "
         "nonce and partial IV to the response is filled, refreshed and read back field-for-field from the COSE object's fields of the same role "
         "(R-OSC-ROLE, roles computed from the two record types); (4) every local flag that steers an RFC 8613 step in the protect / unprotect "
-        "functions can have its non-initial value where it is tested (reaching definitions).")
+        "functions can have its non-initial value where it is tested (reaching definitions). The option decoder examines all eight bits of the flag byte (R-OSC-FLAGS).")
 
 
 def c02(run):
@@ -432,7 +432,7 @@ def c02(run):
         "leads to rejection (R-PARSE-GATE); no pointer into a PDU buffer is used after a call that may reallocate it, library-wide (R-FIXUP); every "
         "memcmp/strncmp over a length-delimited string is bounded by that string's own length (R-CMP-BOUND); a persistent element count that bounds a "
         "fixed-size array (block reassembly tracker) only grows behind one common capacity guard (R-COUNT-CAP); a local copy of an owned pointer "
-        "field is not used after a call that is handed the owning object and may free that field (R-STALE-COPY).")
+        "field is not used after a call that is handed the owning object and may free that field (R-STALE-COPY). A function that was given the capacity of the buffer it fills compares against it before every variable-size copy (R-WRITE-CAP, NDEBUG build); the measuring and the filling pass of the two-pass string builders count and store the same number of bytes for every byte value (R-SIZE-FILL); a call that is handed X.length is handed X.s (R-PAIR-ARGS); the receive limit, once our own maximum is set, uses no peer-settable session field (R-STREAM-CAP own limit).")
 
 
 def c07(run):
@@ -469,7 +469,7 @@ def c11(run):
         "notification is made Non-confirmable only below COAP_OBS_MAX_NON consecutive ones (or NON_ALWAYS / the final 4.04) and the counter is reset / "
         "incremented to match the chosen type before the transmission (R-OBS-CON, coap_notify_observers); a Reset that matches a queued message reaches "
         "coap_cancel(), which removes the observer (R-OBS-RST, coap_dispatch); an observer skipped before its notification was handed to the transmit path is marked "
-        "dirty so that the partially-dirty pass visits it again (R-OBS-DIRTY, coap_notify_observers).")
+        "dirty so that the partially-dirty pass visits it again (R-OBS-DIRTY, coap_notify_observers). The subscription found by cache key is deleted by its own token (R-OBS-REPLACE).")
 
 
 PROPS = {
